@@ -81,7 +81,17 @@ def run_empirical(case):
     tr = _base("empirical", case)
     tr["obs"] = [list(o) for o in obs]
     p = {JN.JDS: obs, JN.MOTIF_SIZES: case["sizes"]}
-    _history(tr, lambda: gcmpy.JointDegreeEmpirical(dict(p)),
+
+    def direct():
+        if case.get("pre_obs"):
+            # history: the loader object held another observed sequence before; the new one is installed through the
+            # public property and the table rebuilt
+            ld = gcmpy.JointDegreeEmpirical({JN.JDS: [tuple(o) for o in case["pre_obs"]], JN.MOTIF_SIZES: case["sizes"]})
+            ld.empirical_jds = list(obs)
+            ld.create_jdd()
+            return ld
+        return gcmpy.JointDegreeEmpirical(dict(p))
+    _history(tr, direct,
              lambda: gcmpy.JointDegreeDistribution.load_joint_degree({**p, JN.JOINT_DEGREE_TYPE: "empirical"}),
              lambda key: len(obs))
     return tr
@@ -108,6 +118,9 @@ def _marginal_params(case, extra=None):
     F = [dict((k, w) for k, w in col) for col in case["F"]]
     dens = case["dens"]
     fps = [(lambda k, i=i: F[i].get(int(k), 0) / dens[i]) for i in range(len(F))]
+    if case.get("shared_callable"):
+        # the SAME callable object serves every topology (requires identical tables, as the case builder guarantees)
+        fps = [fps[0]] * len(F)
     p = {JN.ARR_FP: fps, JN.MOTIF_SIZES: case["sizes"], JN.LOW_HIGH_DEGREE_BOUND: [tuple(b) for b in case["bounds"]]}
     p.update(extra or {})
     return p, F
@@ -146,21 +159,34 @@ def run_marginal_sample1(case):
     tr.update({"decided": True, "tally": [], "why": "", "leaves": 0})
     Ws = [sum(F[i].get(k, 0) for k in range(b[0], b[1] + 1)) for i, b in enumerate(case["bounds"])]
     grid = lambda idx: Ws[idx] if idx < len(Ws) else 0
+    from fractions import Fraction
     tally = {}
     orc = Oracle()
+    total_w = 1
+    for w_ in Ws:
+        total_w *= w_
     try:
-        for obj, trail, _w in orc.enumerate(lambda: gcmpy.JointDegreeMarginal(dict(p)), grid=grid, max_leaves=20000):
+        for obj, trail, wgt in orc.enumerate(lambda: gcmpy.JointDegreeMarginal(dict(p)), grid=grid, max_leaves=20000):
             tr["leaves"] += 1
             keys = list(obj.jdd)
-            if len(keys) != 1 or len(trail) != len(Ws) or any(t[0] != "r" for t in trail):
-                tr["decided"], tr["why"] = False, "one-sample run did not make exactly one grid draw per topology"
+            if len(keys) != 1 or any(t[0] != "r" for t in trail):
+                tr["decided"], tr["why"] = False, "one-sample run is not a single tuple drawn through random()"
                 break
             k = tuple(int(v) for v in keys[0])
-            tally[k] = tally.get(k, 0) + 1
+            tally[k] = tally.get(k, Fraction(0)) + wgt
+        # exact probability of each tuple as an integer over prod_i W_i (whatever number of draws the code makes)
+        for k in list(tally):
+            x = tally[k] * total_w
+            if x.denominator != 1:
+                tr["decided"], tr["why"] = False, "leaf weights are not multiples of 1/prod W_i (draws not on the aligned grid)"
+                break
+            tally[k] = int(x)
     except OracleMismatch as ex:
         tr["decided"], tr["why"] = False, "oracle: %s" % ex
     except Exception as ex:
         tr["raised"] = "%s: %s" % (type(ex).__name__, str(ex)[:70])
+    if not tr["decided"]:
+        tally = {}
     tr["tally"] = [{"key": list(k), "count": c} for k, c in sorted(tally.items())]
     return tr
 
